@@ -708,6 +708,63 @@ def may_fail_sites(func_node: ast.AST) -> list[tuple[ast.AST, str]]:
     return out
 
 
+def chunk_loop_defects(func_node: ast.AST) -> list[tuple[ast.AST, str, str]]:
+    """`for i in range(A, B, S): ... X[i:i + S] ...` - chunking a sequence: every element is in exactly one chunk iff
+    A == 0, B == len(X) and the slice is X[i:i + S].  Returns (loop, sequence text, what is wrong) for each chunk loop
+    that deviates; loops that do not slice by their index are not chunk loops."""
+    out: list[tuple[ast.AST, str, str]] = []
+    for lp in walk_no_nested(func_node):
+        if not (isinstance(lp, ast.For) and isinstance(lp.target, ast.Name) and isinstance(lp.iter, ast.Call) and call_name(lp.iter) == "range" and len(lp.iter.args) == 3):
+            continue
+        i = lp.target.id
+        a, b, st = lp.iter.args
+        slices = [x for x in ast.walk(lp) if isinstance(x, ast.Subscript) and isinstance(x.slice, ast.Slice) and isinstance(x.slice.lower, ast.Name) and x.slice.lower.id == i]
+        if not slices:
+            continue
+        seq = ast.unparse(slices[0].value)
+        step = ast.unparse(st)
+        if not (isinstance(a, ast.Constant) and a.value == 0):
+            out.append((lp, seq, f"the chunks start at {ast.unparse(a)}, not at 0"))
+        if ast.unparse(b) != f"len({seq})":
+            out.append((lp, seq, f"the chunk starts run up to `{ast.unparse(b)}`, not to len({seq}): the elements of the last chunk(s) are never visited when the length is not a multiple that hides it"))
+        for sl in slices:
+            up = sl.slice.upper
+            okup = up is not None and ast.unparse(up).replace(" ", "") in (f"{i}+{step}".replace(" ", ""), f"{step}+{i}".replace(" ", ""))
+            if not okup or sl.slice.step is not None:
+                out.append((lp, seq, f"the chunk is `{ast.unparse(sl)}`, not {seq}[{i}:{i} + {step}]"))
+    return out
+
+
+def always_raises(stmts: list[ast.stmt]) -> bool:
+    """every path through the statement list ends in `raise` (syntactic, conservative)"""
+    if not stmts:
+        return False
+    last = stmts[-1]
+    if isinstance(last, ast.Raise):
+        return True
+    if isinstance(last, ast.If):
+        return bool(last.orelse) and always_raises(last.body) and always_raises(last.orelse)
+    if isinstance(last, (ast.With, ast.AsyncWith)):
+        return always_raises(last.body)
+    return False
+
+
+def swallowing_handlers(func_node: ast.AST, node: ast.AST) -> list[ast.ExceptHandler]:
+    """`except` clauses of the try statements whose BODY contains `node` that have a path ending without `raise`:
+    an exception raised by `node` can be turned into normal continuation there."""
+    pm = parent_map(func_node)
+    out: list[ast.ExceptHandler] = []
+    cur = node
+    while True:
+        par = pm.get(id(cur))
+        if par is None:
+            break
+        if isinstance(par, ast.Try) and any(cur is b or any(cur is y for y in ast.walk(b)) for b in par.body):
+            out += [h for h in par.handlers if not always_raises(h.body)]
+        cur = par
+    return out
+
+
 _LIVE_CACHE: dict[int, dict[str, str]] = {}
 
 
